@@ -744,3 +744,74 @@ def _same_branch(a, b, fn):
         if k not in pb:
             return False
     return True
+
+
+# ------------------------------------------------------------------------------------------------ G4
+RULES['G4'] = ('G4: (a) the analysis matrix_to_gellmann_basis and the synthesis gellmann_basis_to_matrix are C-linear in their data: they '
+               'apply no conj / .real / .imag / abs / adjoint to it (the coefficient vector of an arbitrary complex matrix is complex, an '
+               'anti-linear step is only right for Hermitian input); (b) in _all_gellmann_matrix_cache the single-site list always contains '
+               'the identity and the flag with_I is read only AFTER the tensor product, where it drops the last element (I x ... x I): '
+               'otherwise the G x I terms are missing for tensor_n >= 2.')
+
+_ANTILINEAR = {'conj', 'conjugate', 'real', 'imag', 'abs', 'absolute', 'H', 'mH', 'adjoint', 'angle'}
+
+
+def _antilinear_sites(fn):
+    out = []
+    for x in ast.walk(fn):
+        if isinstance(x, ast.Attribute) and x.attr in _ANTILINEAR:
+            out.append(x)
+        elif isinstance(x, ast.Call) and isinstance(x.func, ast.Name) and x.func.id == 'abs':
+            out.append(x)
+    return out
+
+
+def g4(proj, rep):
+    rep.rule('G4', RULES['G4'])
+    m = proj.mod(GM)
+    rep.touch(m)
+    n = 0
+    # positive control: the rule's matcher must see the `.real` of dm_to_gellmann_basis (Hermitian input: legitimate there)
+    ctl = proj.func(f'{GM}.dm_to_gellmann_basis')
+    if not _antilinear_sites(ctl.node):
+        rep.undecided('G4', ctl.qual, 'positive control lost: no `.real` found in dm_to_gellmann_basis, the matcher may be blind', m, ctl.node,
+                      text='positive control')
+        return 0
+    for q in (f'{GM}.matrix_to_gellmann_basis', SYNTH):
+        f = proj.func(q)
+        n += 1
+        bad = _antilinear_sites(f.node)
+        if bad:
+            x = bad[0]
+            st = x
+            while not isinstance(st, ast.stmt):
+                st = getattr(st, '_parent')
+            rep.violation('G4', q, f'`{ast.unparse(st)[:90]}` applies `{ast.unparse(x)[:40]}` to the data: the map is no longer C-linear, so the '
+                          f'coefficients of a non-Hermitian complex matrix are (re)constructed wrongly', m, st)
+        else:
+            rep.ok('G4', q, 'no anti-linear operation on the data', m, f.node, text='C-linear')
+    # (b) with_I only after the tensor product
+    f = proj.func(f'{GM}._all_gellmann_matrix_cache')
+    n += 1
+    body = f.node.body
+    kron_idx = next((i for i, s in enumerate(body) if isinstance(s, ast.If) and 'tensor_n' in ast.unparse(s.test)), None)
+    if kron_idx is None:
+        rep.undecided('G4', f.qual, 'tensor-product stage (`if tensor_n>1`) not found', m, f.node, text='with_I order')
+        return n - 1
+    early = [x for s in body[:kron_idx + 1] for x in ast.walk(s) if isinstance(x, ast.Name) and x.id == 'with_I']
+    late = [s for s in body[kron_idx + 1:] if any(isinstance(x, ast.Name) and x.id == 'with_I' for x in ast.walk(s))]
+    if early:
+        st = early[0]
+        while not isinstance(st, ast.stmt):
+            st = getattr(st, '_parent')
+        rep.violation('G4', f.qual, f'`{ast.unparse(st)[:90]}` reads with_I before / inside the tensor product: for tensor_n >= 2 and with_I=False '
+                      f'the basis loses every G x I element (it must be the with_I=True list minus its last element)', m, st)
+    elif len(late) == 1 and isinstance(late[0], ast.If) and ast.unparse(late[0].test).replace(' ', '') == 'notwith_I' \
+            and [ast.unparse(s).replace(' ', '') for s in late[0].body] == ['ret=ret[:-1]'] and not late[0].orelse:
+        rep.ok('G4', f.qual, 'with_I only drops the last element after the tensor product', m, late[0])
+    else:
+        rep.undecided('G4', f.qual, 'with_I handling after the tensor product is not the recognised `if not with_I: ret = ret[:-1]`', m, f.node,
+                      text='with_I order')
+        n -= 1
+    rep.count('G4.obligations', n)
+    return n
